@@ -41,7 +41,9 @@ Step ==
   /\ ~done /\ err = "ok" /\ l <= Len(Ev)
   /\ LET e == Ev[l] IN
      CASE e.k = "init" ->
-            LET c == InitCheck(PP, e) IN
+            \* "sessiononly" marks a session driven for the protocol / point clauses alone (C01 at the ends of the float
+            \* range, where the geometric clauses of C02 are not what is being asked)
+            LET c == IF Has(PP, "sessiononly") THEN "ok" ELSE InitCheck(PP, e) IN
             /\ err' = IF c # "ok" THEN c
                       ELSE IF e.cells[1].box # Tr.xbox[1] THEN "init.rootbox" ELSE "ok"
             /\ T' = TreeOfInit(e) /\ ph' = "told"
